@@ -35,7 +35,7 @@ RULE = ("layouts: all 120 orders of {~W, ~C, ~P, ~O, custom} after ~V with ~A at
         "column. distinct = distinct (order, ~A position, spelling vector, sizes, steering placement, engine); "
         "non-trivial = layout with >= 4 sections and >= 1 data row Added later: re-reads into the same object, header-only reads, empty data sections at every position, LAS vocabulary (MNEM/UNIT, STRT, DEPT, ASCII, section letters ...) as ordinary mnemonics first / last in ~C/~P/custom, nine spellings per section title (any word beginning with the section letter, mixed case).")
 ASSUMPTIONS = [
-    "VERS 2.0 / WRAP NO / DLM absent in ~Version, NULL -999.25 in ~Well; custom titles start with a letter outside V/W/C/P/O/A and contain no underscore",
+    "VERS 2.0 / WRAP NO / DLM absent in ~Version, NULL -999.25 in ~Well; custom titles start with a letter outside V/W/C/P/O/A; titles with an underscore and two custom sections under one title only occur as the witnesses of two known findings",
     "items are compared with mnemonic_case='preserve'",
 ]
 EXHAUSTIVE = "all 720 (section order x ~A position) layouts; every title spelling of every section kind"
@@ -64,6 +64,13 @@ def grid(tier):
                 order.insert(apos, "A")
                 k += 1
                 yield {"order": order, "spell": "random", "seed": 5 * k + 2, "engine": engine, "steer": None, "extra": 0, "empty_data": True}
+    for kind, ttl in (("C", "~Curve_Information"), ("P", "~PARAMETER_INFORMATION"), ("P", "~Parameter Information (run_1)"), ("X", "~Tops_Data"), ("X", "~Core_Data")):
+        for engine in ("numpy", "normal"):
+            k += 1
+            yield {"order": ["W", "C", "P", "O", "X", "A"], "spell": {}, "seed": 5 * k + 2, "engine": engine, "steer": None, "extra": 0, "force_title": [kind, ttl]}
+    for engine in ("numpy", "normal"):          # two custom sections under the same title
+        k += 1
+        yield {"order": ["W", "C", "X", "P", "X", "A"], "spell": {}, "seed": 5 * k + 2, "engine": engine, "steer": None, "extra": 0, "same_custom_title": True}
     for kind in "VWCPOA":
         for sp in range(len(TITLES[kind])):
             for engine in ("numpy", "normal"):
@@ -106,7 +113,11 @@ def build(case):
         return "tag%04d" % tag[0]
     spell = case["spell"]
 
+    forced = case.get("force_title") or [None, None]
+
     def title(kind):
+        if kind == forced[0] and not kind.startswith("X"):
+            return forced[1]
         if kind.startswith("X"):
             return None
         if spell == "random":
@@ -144,7 +155,12 @@ def build(case):
                     rows[i][c - 1] = "-999.25" if i % 2 == 0 else "55.500"
             secs.append({"kind": "A", "title": title("A"), "rows": rows})
         else:
-            secs.append({"kind": "X", "title": customs.pop(), "items": [["XX%d" % i, "xu", "xv%d" % i, t()] for i in range(rng.randint(0, 4))]})
+            xt = customs.pop()
+            if forced[0] == "X":
+                xt = forced[1]
+            if case.get("same_custom_title"):
+                xt = "~Remarks"
+            secs.append({"kind": "X", "title": xt, "items": [["XX%d" % i, "xu", "xv%d" % i, t()] for i in range(rng.randint(1 if case.get("same_custom_title") else 0, 4))]})
     if case.get("steer"):
         si, where = case["steer"][:2]
         m, u, v = STEER[si]
@@ -177,7 +193,8 @@ def run_case(case, ctx):
         ctx.count("steering_name_cases")
     if kinds_in_order[-1] != "A":
         ctx.count("layouts_data_not_last")
-    cls = ("lowercase-title:" + "".join(sorted(set(lower)))) if lower else \
+    underscore = [s["title"] for s in secs if "_" in s["title"]]
+    cls = "same-custom-title-twice" if case.get("same_custom_title") else "underscore-in-title" if underscore else ("lowercase-title:" + "".join(sorted(set(lower)))) if lower else \
           ("steering-name-in-%s:%s" % (case["steer"][1], STEER[case["steer"][0]][0].upper())) if case.get("steer") else "plain"
     detail = {"text": text, "engine": case["engine"], "order": kinds_in_order, "titles": [s["title"] for s in secs]}
     V = ctx.violation
